@@ -99,6 +99,8 @@ func (k *c06) RunCase(c *core.Ctx, i int) {
 	zr := c.Rng(i, "zero-total")
 	zj, zu := zeroTotalPortfolio(zr)
 	files["zero.knut"], files["zero.yaml"] = []byte(zj), []byte(zu)
+	ptTrain, ptTarget := permutedCountTies(c.Rng(i, "permuted-ties"))
+	files["pt-train.knut"], files["pt-target.knut"] = []byte(ptTrain), []byte(ptTarget)
 	dir := c.CaseDir(i)
 	defer os.RemoveAll(dir)
 	if err := core.WriteFiles(dir, files); err != nil {
@@ -137,6 +139,7 @@ func (k *c06) RunCase(c *core.Ctx, i int) {
 		{"transcode-many-commodities", []string{"transcode", "-v", "CHF", "many.knut"}},
 		{"infer", []string{"infer", "-t", "main.knut", "target.knut"}},
 		{"register", []string{"register", "--to", to, "main.knut"}},
+		{"infer-permuted-count-ties", []string{"infer", "-t", "pt-train.knut", "pt-target.knut"}},
 		{"weights-zero-total-universe", []string{"portfolio", "weights", "-v", "CHF", "--universe", "zero.yaml", "--to", "2020-03-01", "--color=false", "zero.knut"}},
 		{"weights-zero-total-universe-csv", []string{"portfolio", "weights", "-v", "CHF", "--universe", "zero.yaml", "--to", "2020-03-01", "--months", "--csv", "zero.knut"}},
 		{"weights-zero-total", []string{"portfolio", "weights", "-v", "CHF", "--to", "2020-03-01", "--color=false", "-m", "1", "zero.knut"}},
@@ -306,6 +309,34 @@ func zeroTotalPortfolio(r *rand.Rand) (journal, universe string) {
 		fmt.Fprintf(&u, "%s: [%s]\n", cl, strings.Join(classes[cl], ", "))
 	}
 	return b.String(), u.String()
+}
+
+// permutedCountTies builds a training journal with two candidate accounts whose
+// per-word counts are permutations of one another, and a target whose
+// description holds all the words: both scores are the same sum of logarithms
+// taken in a different order.
+func permutedCountTies(r *rand.Rand) (train, target string) {
+	words := []string{"alpha", "beta", "gamma", "delta", "epsilon", "zeta", "eta"}[:4+r.Intn(4)]
+	counts := make([]int, len(words))
+	for i := range counts {
+		counts[i] = 1 + r.Intn(9)
+	}
+	perm := r.Perm(len(words))
+	var lines []string
+	for i, w := range words {
+		for n := 0; n < counts[i]; n++ {
+			lines = append(lines, fmt.Sprintf("2020-01-%02d \"%s\"\nAssets:Bank Expenses:Alpha 10 CHF\n", 1+r.Intn(28), w))
+		}
+		for n := 0; n < counts[perm[i]]; n++ {
+			lines = append(lines, fmt.Sprintf("2020-01-%02d \"%s\"\nAssets:Bank Expenses:Beta 10 CHF\n", 1+r.Intn(28), w))
+		}
+	}
+	r.Shuffle(len(lines), func(a, b int) { lines[a], lines[b] = lines[b], lines[a] })
+	var t strings.Builder
+	for n := 0; n < 1+r.Intn(4); n++ {
+		fmt.Fprintf(&t, "2020-02-%02d \"%s\"\nAssets:Bank Expenses:TBD 10 CHF\n\n", 1+n, strings.Join(words, " "))
+	}
+	return strings.Join(lines, "\n"), t.String()
 }
 
 func c06Files(files map[string][]byte, target, rev string) map[string][]byte {
